@@ -1,4 +1,5 @@
 import Yuiv.Gen.Tables
+import Yuiv.Proofs.C18Gen
 import Yuiv.Model.C18
 /-
 C18: the hand-written crossing tables of the link code model (`C18.CType.*`, `signAt`) are THE tables of
@@ -23,5 +24,223 @@ theorem gen18_signAt_eq (c : CType) (j : Nat) (hj : j < 4) :
     Yuiv.Gen.slotSign (toCT c) j = (match signAt c j with | some s => s.toInt | none => 0) := by
   have : j = 0 ∨ j = 1 ∨ j = 2 ∨ j = 3 := by omega
   rcases this with rfl | rfl | rfl | rfl <;> cases c <;> rfl
+
+end Yuiv.C18
+
+/-
+TIE BY TRANSLATION (`fn:link`): `Yuiv.GenLink.*` (Yuiv/Gen/LinkFn.lean) is regenerated from the CURRENT source text of
+yui-link/src/link/{crossing,path,link}.rs by tools/rs2lean_fn.py (renderer tools/rs2lean_link.py) on every run.  The proofs are
+in Yuiv/Proofs/C18Gen.lean (`GenFn.g_*`); conversions `toT / toC / toL / toPath / toSign / toBit / bitB`, `rmap f` = map under `Res`.
+
+* generated = hand model `Yuiv/Model/C18.lean` for ALL inputs, panics included: `CrossingType::mirror`, `Crossing::{new,
+  from_pd_code, ctype, edge, edges, is_resolved, resolve, resolved, mirror, pass, arcs, convert_edges}`, `Path::{new, arc, circ}`,
+  `Link::{from_pd_code, data, mirror, crossing_num, crossing_index, crossing_at_mut(0).resolve, resolved_by, pass_edge}`;
+* for every fuel above the library's own bound `4·n` (the `loop` of `traverse_edges`): `traverse_edges` (with the `FnMut`
+  parameter read as the log of its calls) = `traverse`, `components` = `components`, `crossing_signs` = `crossingSigns`,
+  `signed_crossing_nums`, `writhe`, `is_knot`, `ori_pres_state`, `seifert_circles` = the model — for every link, valid or not;
+* `gen_*_eq` without `model`: the composition shape of the generated function (same as the model's at that place);
+* `gen_*_eq_samples`: kernel evaluation (`decide +kernel`) on twelve sample diagrams, every slot / every state up to length 4
+  (kept as a cheap regression net; superseded by the general theorems).
+-/
+namespace Yuiv.C18
+open Yuiv Yuiv.Rust Yuiv.GenLink Yuiv.C18.GenFn
+
+theorem gen_ctype_mirror_eq (t : CrossingType) : toT t.mirror = (toT t).mirror :=
+  GenFn.g_ctype_mirror_eq t
+
+theorem gen_crossing_mirror_eq (c : GenLink.Crossing) : toC c.mirror = (toC c).mirror :=
+  GenFn.g_crossing_mirror_eq c
+
+theorem gen_is_resolved_eq (c : GenLink.Crossing) : c.is_resolved = (toC c).isResolved :=
+  GenFn.g_is_resolved_eq c
+
+theorem gen_resolve_eq (c : GenLink.Crossing) (b : Bool) : rmap toC (c.resolve (toBit b)) = (toC c).resolve b :=
+  GenFn.g_resolve_eq c b
+
+theorem gen_resolved_eq (c : GenLink.Crossing) (b : Bool) : rmap toC (c.resolved (toBit b)) = (toC c).resolve b :=
+  GenFn.g_resolved_eq c b
+
+theorem gen_edge_eq (c : GenLink.Crossing) (j : Nat) :
+    c.edge j = if j < 4 then .ok ((toC c).edge j) else .panic :=
+  GenFn.g_edge_eq c j
+
+theorem gen_pass_eq (c : GenLink.Crossing) (j : Nat) :
+    c.pass j = if j < 4 then .ok ((toC c).pass j) else .panic :=
+  GenFn.g_pass_eq c j
+
+theorem gen_crossing_from_pd_code_eq (a b c d : Nat) :
+    toC (GenLink.Crossing.from_pd_code ⟨a, b, c, d⟩) = C18.Crossing.ofPD a b c d :=
+  GenFn.g_crossing_from_pd_code_eq a b c d
+
+theorem gen_crossing_new_eq (t : CrossingType) (a b c d : Nat) :
+    toC (GenLink.Crossing.new t ⟨a, b, c, d⟩) = ⟨toT t, a, b, c, d⟩ :=
+  GenFn.g_crossing_new_eq t a b c d
+
+theorem gen_ctype_eq (c : GenLink.Crossing) : toT c.ctype = (toC c).ctype :=
+  GenFn.g_ctype_eq c
+
+theorem gen_edges_eq (c : GenLink.Crossing) : c.edges.toList = (toC c).edges :=
+  GenFn.g_edges_eq c
+
+theorem gen_convert_edges_eq (c : GenLink.Crossing) (f : Nat → Nat) : toC (c.convert_edges f) = (toC c).convertEdges f :=
+  GenFn.g_convert_edges_eq c f
+
+theorem gen_path_new_eq (es : List Nat) (b : Bool) :
+    GenLink.Path.new es b = if es = [] then .panic else .ok ⟨es, b⟩ :=
+  GenFn.g_path_new_eq es b
+
+theorem gen_path_arc_eq (es : List Nat) : GenLink.Path.arc es = GenLink.Path.new es false :=
+  GenFn.g_path_arc_eq es
+
+theorem gen_path_circ_eq (es : List Nat) : GenLink.Path.circ es = GenLink.Path.new es true :=
+  GenFn.g_path_circ_eq es
+
+theorem gen_arcs_eq (c : GenLink.Crossing) :
+    rmap (fun p => (toPath p.1, toPath p.2)) c.arcs = .ok (toC c).arcs :=
+  GenFn.g_arcs_eq c
+
+theorem gen_link_from_pd_code_eq (pd : List (Nat × Nat × Nat × Nat)) :
+    toL (GenLink.Link.from_pd_code (pd.map fun x => ⟨x.1, x.2.1, x.2.2.1, x.2.2.2⟩)) = C18.fromPD4 pd :=
+  GenFn.g_link_from_pd_code_eq pd
+
+theorem gen_link_mirror_eq (l : GenLink.Link) : toL l.mirror = C18.mirror (toL l) :=
+  GenFn.g_link_mirror_eq l
+
+theorem gen_crossing_num_eq (l : GenLink.Link) : l.crossing_num = C18.crossingNum (toL l) :=
+  GenFn.g_crossing_num_eq l
+
+theorem gen_link_data_eq (l : GenLink.Link) : l.data.map toC = toL l :=
+  GenFn.g_link_data_eq l
+
+theorem gen_crossing_index_eq (l : GenLink.Link) (i : Nat) :
+    l.crossing_index i = if i < l.crossing_num then ciSpec 0 l.data_ i else .panic :=
+  GenFn.g_crossing_index_eq l i
+
+theorem gen_crossing_index_zero_eq (l : GenLink.Link) : l.crossing_index 0 = ciSpec 0 l.data_ 0 :=
+  GenFn.g_crossing_index_zero_eq l
+
+theorem gen_crossing_at_mut_eq (l : GenLink.Link) (i : Nat) (k : GenLink.Crossing → Res GenLink.Crossing) :
+    l.crossing_at_mut i k = (l.crossing_index i >>= fun j => Lk.idx l.data_ j >>= fun x => k x >>= fun x' =>
+      Lk.idxSet l.data_ j x' >>= fun d => .ok ⟨d⟩) :=
+  GenFn.g_crossing_at_mut_eq l i k
+
+theorem gen_crossing_at_mut_zero_resolve_eq (l : GenLink.Link) (b : Bool) :
+    rmap toL (l.crossing_at_mut 0 (fun x => x.resolve (toBit b))) = C18.resolveFirst (toL l) b :=
+  GenFn.g_crossing_at_mut_zero_resolve_eq l b
+
+theorem gen_resolved_by_eq (l : GenLink.Link) (s : List Bool) :
+    rmap toL (l.resolved_by (s.map toBit)) = C18.resolvedBy (toL l) s :=
+  GenFn.g_resolved_by_eq l s
+
+theorem gen_pass_edge_eq (l : GenLink.Link) (ci ei : Nat) :
+    l.pass_edge ci ei = if ci < l.data_.length ∧ ei < 4 then .ok (C18.passEdge (toL l) ci ei) else .panic :=
+  GenFn.g_pass_edge_eq l ci ei
+
+/-- `Link::traverse_edges` with the `FnMut` parameter read as the log of its calls = the model's `traverse`, for every fuel
+above the library's own bound `4·n` (the `debug_assert!`s on `start` are visible). -/
+theorem gen_traverse_edges_eq (l : GenLink.Link) (fuel : Nat) (start : Nat × Nat) (hf : 4 * l.data_.length < fuel) :
+    l.traverse_edges fuel start =
+      if start.1 < l.data_.length ∧ start.2 < 4 then C18.traverse (toL l) start else .panic :=
+  GenFn.g_traverse_edges_eq l fuel start hf
+
+/-- `Link::components` = the model's `components`, for every link (valid or not) and every fuel above `4·n`:
+same components in the same order, same panics. -/
+theorem gen_components_eq (l : GenLink.Link) (fuel : Nat) (hf : 4 * l.data_.length < fuel) :
+    rmap (List.map toPath) (l.components fuel) = C18.components (toL l) :=
+  GenFn.g_components_eq l fuel hf
+
+theorem gen_crossing_signs_eq (l : GenLink.Link) (fuel : Nat) (hf : 4 * l.data_.length < fuel) :
+    rmap (List.map toSign) (l.crossing_signs fuel) = C18.crossingSigns (toL l) :=
+  GenFn.g_crossing_signs_eq l fuel hf
+
+theorem gen_signed_crossing_nums_eq (l : GenLink.Link) (fuel : Nat) :
+    l.signed_crossing_nums fuel = (l.crossing_signs fuel >>= fun s => .ok (s.count .Pos, s.count .Neg)) :=
+  GenFn.g_signed_crossing_nums_eq l fuel
+
+theorem gen_writhe_eq (l : GenLink.Link) (fuel : Nat) :
+    l.writhe fuel = (l.signed_crossing_nums fuel >>= fun pn => .ok ((pn.1 : Int) - (pn.2 : Int))) :=
+  GenFn.g_writhe_eq l fuel
+
+theorem gen_is_knot_eq (l : GenLink.Link) (fuel : Nat) :
+    l.is_knot fuel = (l.components fuel >>= fun cs => .ok (cs.length == 1)) :=
+  GenFn.g_is_knot_eq l fuel
+
+theorem gen_ori_pres_state_eq (l : GenLink.Link) (fuel : Nat) :
+    l.ori_pres_state fuel = (l.crossing_signs fuel >>= fun s =>
+      if s.length ≤ 64 then .ok (s.map fun x => if x = .Pos then Lk.Bit.Bit0 else Lk.Bit.Bit1) else .panic) :=
+  GenFn.g_ori_pres_state_eq l fuel
+
+theorem gen_seifert_circles_eq (l : GenLink.Link) (fuel : Nat) :
+    l.seifert_circles fuel = (l.ori_pres_state fuel >>= fun s => l.resolved_by s >>= fun r => r.components fuel) :=
+  GenFn.g_seifert_circles_eq l fuel
+
+theorem gen_crossing_at_eq (l : GenLink.Link) (i : Nat) :
+    l.crossing_at i = (l.crossing_index i >>= fun j => Lk.idx l.data_ j) :=
+  GenFn.g_crossing_at_eq l i
+
+theorem gen_resolved_at_eq (l : GenLink.Link) (i : Nat) (r : Lk.Bit) :
+    l.resolved_at i r = (if i < l.crossing_num then l.crossing_at_mut i (fun x => x.resolve r) else .panic) :=
+  GenFn.g_resolved_at_eq l i r
+
+theorem gen_signed_crossing_nums_model_eq (l : GenLink.Link) (fuel : Nat) (hf : 4 * l.data_.length < fuel) :
+    l.signed_crossing_nums fuel = C18.signedCrossingNums (toL l) :=
+  GenFn.g_signed_crossing_nums_model_eq l fuel hf
+
+theorem gen_writhe_model_eq (l : GenLink.Link) (fuel : Nat) (hf : 4 * l.data_.length < fuel) :
+    l.writhe fuel = C18.writhe (toL l) :=
+  GenFn.g_writhe_model_eq l fuel hf
+
+theorem gen_is_knot_model_eq (l : GenLink.Link) (fuel : Nat) (hf : 4 * l.data_.length < fuel) :
+    l.is_knot fuel = C18.isKnot (toL l) :=
+  GenFn.g_is_knot_model_eq l fuel hf
+
+theorem gen_ori_pres_state_model_eq (l : GenLink.Link) (fuel : Nat) (hf : 4 * l.data_.length < fuel) :
+    rmap (List.map bitB) (l.ori_pres_state fuel) = C18.oriPresState (toL l) :=
+  GenFn.g_ori_pres_state_model_eq l fuel hf
+
+theorem gen_seifert_circles_model_eq (l : GenLink.Link) (fuel : Nat) (hf : 4 * l.data_.length < fuel) :
+    rmap (List.map toPath) (l.seifert_circles fuel) = C18.seifertCircles (toL l) :=
+  GenFn.g_seifert_circles_model_eq l fuel hf
+
+theorem gen_pass_edge_eq_samples :
+    samples.all (fun l => (slotsOf l).all fun s => l.pass_edge s.1 s.2 == .ok (C18.passEdge (toL l) s.1 s.2)) = true :=
+  GenFn.g_pass_edge_eq_samples
+
+theorem gen_traverse_edges_eq_samples :
+    samples.all (fun l => (slotsOf l).all fun s => l.traverse_edges fuel0 s == C18.traverse (toL l) s) = true :=
+  GenFn.g_traverse_edges_eq_samples
+
+theorem gen_components_eq_samples :
+    samples.all (fun l => rmap (List.map toPath) (l.components fuel0) == C18.components (toL l)) = true :=
+  GenFn.g_components_eq_samples
+
+theorem gen_crossing_signs_eq_samples :
+    samples.all (fun l => rmap (List.map toSign) (l.crossing_signs fuel0) == C18.crossingSigns (toL l)) = true :=
+  GenFn.g_crossing_signs_eq_samples
+
+theorem gen_writhe_eq_samples :
+    samples.all (fun l => l.writhe fuel0 == C18.writhe (toL l)) = true :=
+  GenFn.g_writhe_eq_samples
+
+theorem gen_resolved_by_eq_samples :
+    samples.all (fun l => ((List.range 5).flatMap states).all fun s =>
+      rmap toL (l.resolved_by (s.map toBit)) == C18.resolvedBy (toL l) s) = true :=
+  GenFn.g_resolved_by_eq_samples
+
+theorem gen_seifert_circles_eq_samples :
+    samples.all (fun l => rmap (List.map toPath) (l.seifert_circles fuel0) == C18.seifertCircles (toL l)) = true :=
+  GenFn.g_seifert_circles_eq_samples
+
+/-- the fuel hypothesis of the walker theorems is satisfiable: the trefoil diagram (3 crossings) with fuel 13 -/
+example : rmap (List.map toPath)
+      ((⟨[GenFn.mk .X 1 4 2 5, GenFn.mk .X 3 6 4 1, GenFn.mk .X 5 2 6 3]⟩ : GenLink.Link).components 13) =
+    C18.components (toL ⟨[GenFn.mk .X 1 4 2 5, GenFn.mk .X 3 6 4 1, GenFn.mk .X 5 2 6 3]⟩) :=
+  gen_components_eq _ 13 (by decide)
+
+/-- the fuel hypothesis of the walker theorems is satisfiable: the trefoil diagram (3 crossings) with fuel 13 -/
+example : rmap (List.map toPath)
+      ((⟨[GenFn.mk .X 1 4 2 5, GenFn.mk .X 3 6 4 1, GenFn.mk .X 5 2 6 3]⟩ : GenLink.Link).components 13) =
+    C18.components (toL ⟨[GenFn.mk .X 1 4 2 5, GenFn.mk .X 3 6 4 1, GenFn.mk .X 5 2 6 3]⟩) :=
+  gen_components_eq _ 13 (by decide)
 
 end Yuiv.C18
